@@ -241,9 +241,17 @@ def run_c03_c09(r: Run, prop):
                 if big and req in ("n:2147483647", "f:1/1", "f:8191/8192") and not thorough:
                     continue   # these resolve to an order of several hundred on a large composition
                 cases.append((comp, req, 1, PROTON, "map"))
+    # the same requests through the public constructors IsotopicDistribution::from_composition (d) and
+    # from_composition_and_cache (c): a quarter of the composition cases, judged exactly like the function
+    extra = []
+    for i, (c, req, z, ca, form) in enumerate(cases):
+        if i % 4 == 0 and not (len(c) == 1 and c[0][1] == 1):
+            extra.append((c, req, z, ca, ("d" if (i // 4) % 2 == 0 else "c") + form))
+    cases += extra
     lines = [f"brain\t{pairs_of(c)}\t{req}\t{z}\t{fr(ca)}\t{form}" for c, req, z, ca, form in cases]
     impl = r.impl("brain", lines, stall=120)
-    model = r.model("brain", lines, stall=600)
+    # the model has one entry point: the constructor forms are modelled as the function (same request semantics)
+    model = r.model("brain", [f"brain\t{pairs_of(c)}\t{req}\t{z}\t{fr(ca)}\t{form[-3:]}" for c, req, z, ca, form in cases], stall=600)
     corr_ok = True
     seen = set()
     # elements whose own single-atom pattern is already wrong (any clause of either property): a failing
@@ -260,7 +268,7 @@ def run_c03_c09(r: Run, prop):
         els = tuple(sorted(s for s, _ in comp))
         kindc = ("single" if len(comp) == 1 and comp[0][1] == 1 else "comp")
         npk = il.count(",") + 1 if il.startswith("ok") else il.split(" ")[0]
-        r.case((kindc, len(comp), req.split(":")[0], z, npk if isinstance(npk, str) else min(npk, 12)),
+        r.case((kindc, len(comp), req.split(":")[0], z, npk if isinstance(npk, str) else min(npk, 12), form[:-3]),
                {"line": line[:200], "impl": il[:160]})
         for p, clause, detail in judge(case, il, dl, T):
             if p == "BROKEN":
@@ -275,6 +283,8 @@ def run_c03_c09(r: Run, prop):
             # attribution: a composition fails because of an element whose own pattern is wrong, if it holds one
             culprits = sorted(s for s, n in comp if s in single_bad and n > 0)
             wit = {"element": culprits[0]} if culprits else {"elements": list(els)[:4]}
+            if len(form) == 4:
+                wit["entry"] = {"d": "IsotopicDistribution::from_composition", "c": "IsotopicDistribution::from_composition_and_cache"}[form[0]]
             if (clause, json.dumps(wit)) in seen:
                 continue
             seen.add((clause, json.dumps(wit)))
